@@ -32,7 +32,7 @@ import sys
 import numpy as np
 from hypothesis import strategies as st
 
-from verifpy import (Unit, Result, Reject, run_hypothesis, replay_main, SEED, JOBS, param, parallel_map)
+from verifpy import (Unit, Result, Reject, run_hypothesis, replay_main, SEED, JOBS, KNOWN, param, parallel_map)
 import gb_iface as gb
 
 HYPS = ["Tridimensional", "PlaneStrain", "Axisymmetrical", "GeneralisedPlaneStrain",
@@ -251,7 +251,9 @@ def check_case(case):
     # success (no fault reached)
     if not pred:
         same = [k for k in before if before[k] == after[k]]
-        if same and not (finite and r == 0):
+        # (return 0 through a finite strain wrapper skips the stress export: same `if (r)` as the known finding;
+        #  only tolerated while that finding is listed as known)
+        if same and not (finite and r == 0 and "C40.finite_strain_wrapper.failure_overwrites_stress" in KNOWN):
             return Result(False, "C40.harness.success_overwrites", "successful integration left %s at the sentinel: %s" % (", ".join(same), ctx))
     return Result(True, nontrivial=False, classes=classes + ["succeeded"])
 
